@@ -661,7 +661,11 @@ func extractMinimalRegions(t *trie.Trie[bit256.Key, peer.ID], path bitstr.Key, s
 		return append(extractMinimalRegions(t.Branch(b), path+bitstr.Key(byte('0'+b)), size, order),
 			extractMinimalRegions(t.Branch(1-b), path+bitstr.Key(byte('1'-b)), size, order)...)
 	}
-	return []Region{{Prefix: path, Peers: t}}
+	// Re-root the region's peers: AllocateToKClosest descends the keys trie and the
+	// peers trie simultaneously from depth 0, so both must start at the same depth.
+	rooted := trie.New[bit256.Key, peer.ID]()
+	rooted.AddMany(AllEntries(t, zeroKey)...)
+	return []Region{{Prefix: path, Peers: rooted}}
 }
 
 // AssignKeysToRegions assigns the provided keys to the regions based on their
